@@ -68,7 +68,7 @@ def gen_program(rng):
 
 ARGVS = [[], ["a"], ["a", "b", "c"], ["with space", "tab\there"], [""], ["", "x", ""], ["é", "日本", "\U0001F496"], ["--", "-x", "--flag"], ["--", "-s"],
          ["--", "-c", "text"], ["1", "2.5", "true"], ["a" * 300], ["--", "--"], ["*", "$HOME", "`x`", "\\n"], ["=", "a=b"],
-         ["out ", " ", "tab\t", " lead", "mid dle ", "\t", "trail  ", "cr\r", "nl\n"], ["x ", "--", "-y "], ["a\u00a0", "\u3000"]]
+         ["out ", " ", "tab\t", " lead", "mid dle ", "\t", "trail  ", "cr\r", "nl\n"], ["x ", "--", "-y "], ["a\u00a0", "\u3000"], ["-"], ["-", "x"], ["x", "-"], ["--", "-"], ["-", "-"], ["/dev/stdin"], ["-", "--", "-z"]]
 
 
 def expect_argv(args, script_path, cmd_mode):
